@@ -213,6 +213,19 @@ class IntersectHarness(Harness):
                 if V.rev is not None:
                     conds.append(V.rev[0] == 48)
             return z3.Or(conds) if conds else False
+        if name == "glob-respelled-trailing-zeros":
+            # a =* atom against a version with a later component that starts and ends with 0 (1.00 == 1.0, 1.010 == 1.01)
+            if "=*" not in (self.ob["x"].get("op"), self.ob["y"].get("op")):
+                return False
+            conds = []
+            for n in ("x", "y"):
+                V = self.V.get(n)
+                if V is None:
+                    continue
+                for comp in V.comps[1:]:
+                    if len(comp) > 1:
+                        conds.append(z3.And(comp[0] == 48, comp[-1] == 48))
+            return z3.Or(conds) if conds else False
         raise KeyError(name)
 
 
